@@ -341,7 +341,11 @@ D_REFS = [("&amp;", "&"), ("&lt;", "<"), ("&gt;", ">"), ("&quot;", '"'), ("&apos
           ("&foo.bar;", "&foo.bar;"), ("&x;", "&x;")]
 D_NUM = [33, 38, 60, 65, 97, 126, 0xA1, 0xE9, 0x2FF, 0x3042]
 D_GARBAGE = ["garbage", "<!ENTITY", "<!ENTITY incomplete>", "<!ELEMENT x>", "&amp; junk", "]]>",
-             "<!ENTITY % broken"]
+             "<!ENTITY % broken",
+             # complete declarations whose NAME is not an XML Name (first character not a
+             # NameStartChar, no name at all, a character outside NameChar): junk, not entities
+             '<!ENTITY 1bad "x">', "<!ENTITY -dash 'x'>", '<!ENTITY .dot "x">', '<!ENTITY  "no name">',
+             '<!ENTITY 0 "x">', '<!ENTITY a$b "x">', "<!ENTITY a,b 'x'>", '<!ENTITY \u00b7mid "x">']
 
 
 def legal_raw_dtd(raw, quote):
